@@ -116,6 +116,10 @@ type VC struct {
 	loopHead         map[*loopInfo]*State
 	symsUsed         map[string]bool      // prelude symbols the contracts of this function mention
 	symsFrozen       map[string]bool      // ... as found by the discovery pass
+	inlineTag        string               // non-empty while a helper without contract is executed in place
+	inlineN          int
+	inlineDepth      int
+	inlineStack      []*ssa.Function
 	knownVars        map[string]string    // state variables (name -> sort) the discovery pass met
 	globalPkg        map[string]string    // state variable of a package-level variable -> package path
 	ssaByName        map[string]ssa.Value // SMT constant of a defined SSA value -> the value
